@@ -37,6 +37,11 @@ func RunHistory(seed uint64, r *rng.R, work string, opt apphist.Options, cfg Con
 		if cfg.CheckTx && r.Chance(50) {
 			s.Check(s.GenTx())
 		}
+		for len(s.PreBeginCheck) > 0 {
+			f := s.PreBeginCheck[0]
+			s.PreBeginCheck = s.PreBeginCheck[1:]
+			s.Check(f())
+		}
 		if !s.Begin() {
 			break
 		}
@@ -115,7 +120,8 @@ func RunHistory(seed uint64, r *rng.R, work string, opt apphist.Options, cfg Con
 				}
 			}
 		}
-		if cfg.Restarts && r.Chance(15) {
+		if cfg.Restarts && (s.RestartAfterCommit || r.Chance(15)) {
+			s.RestartAfterCommit = false
 			if err := s.Restart(); err != nil {
 				return s, err
 			}
@@ -172,7 +178,7 @@ func Run(seed uint64, tier, work, driver string, replay []string, cfg Config) *c
 		"distinct_nontrivial counts distinct (operation kind, tx type, result kind) triples observed"
 	r := rng.New(seed)
 	nh := 12
-	opt := apphist.Options{MaxBlocks: 24, TxPerBlock: 5, InvalidPct: 25, WithEVM: cfg.EVM}
+	opt := apphist.Options{MaxBlocks: 24, TxPerBlock: 5, InvalidPct: 25, WithEVM: cfg.EVM, WithRestarts: cfg.Restarts, WithCheckTx: cfg.CheckTx}
 	if tier == "thorough" {
 		nh = 150
 		opt.MaxBlocks = 60
